@@ -1157,7 +1157,7 @@ class CircuitDAG(CircuitBase):
                 edge = self.edge_from_reg(in_edges, f"{reg_type}{register}")
                 next_node = edge[0]
 
-                if node in self.node_dict["one-qubit"]:
+                if node in self.node_dict.get("one-qubit", []):
                     node_info = self.dag.nodes[node]
                     op = node_info["op"]
 
@@ -1166,7 +1166,10 @@ class CircuitDAG(CircuitBase):
                     else:
                         gate_list.append(op.__class__)
                     self.remove_op(node)
-                if next_node not in self.node_dict["one-qubit"] and gate_list:
+                if (
+                    next_node not in self.node_dict.get("one-qubit", [])
+                    and gate_list
+                ):
                     # insert new op here
                     out_edges = self.dag.out_edges(nbunch=next_node, keys=True)
                     insert_edge = self.edge_from_reg(out_edges, f"{reg_type}{register}")
